@@ -260,7 +260,7 @@ def load_known(path):
 
 def check_property(prop, tier, seed):
     t0 = time.time()
-    timeout = 10 if tier == 'quick' else 60
+    timeout = 20 if tier == 'quick' else 60
     pkgs = [MOD + '/' + p for p in PROPS[prop]]
     evidence_path = os.path.join(VERIF, 'evidence', prop + '.json')
     os.makedirs(os.path.dirname(evidence_path), exist_ok=True)
@@ -307,8 +307,23 @@ def check_property(prop, tier, seed):
             r = solve.check(g['ctx'], ob, timeout, ses.workdir)
         ob.result = r
         return pair
-    with ThreadPoolExecutor(max_workers=16) as pool:
+    with ThreadPoolExecutor(max_workers=12) as pool:
         list(pool.map(work, allobs))
+    # undecided obligations get a second, calmer attempt (few at a time, three times the limit):
+    # a slow query must not turn into an alarm just because the machine was busy
+    retry = [(g, ob) for g, ob in allobs if ob.kind != 'canary' and ob.result['status'] not in ('unsat', 'sat')]
+
+    def rework(pair):
+        g, ob = pair
+        first = ob.result
+        r = solve.check(g['ctx'], ob, timeout * 3, ses.workdir)
+        r['time'] += first['time']
+        r['retried'] = True
+        ob.result = r
+        return pair
+    if retry and len(retry) <= 40:
+        with ThreadPoolExecutor(max_workers=4) as pool:
+            list(pool.map(rework, retry))
     nob = ndis = 0
     by_backend = {}
     solver_s = 0.0
@@ -384,6 +399,8 @@ def check_property(prop, tier, seed):
         'solver_s': round(solver_s, 2),
         'load_s': round(ses.load_s, 2),
         'samples': samples,
+        'slowest': sorted([{'obligation': ob.name, 'time_s': round(ob.result['time'], 2), 'backend': ob.result['solver'], 'retried': bool(ob.result.get('retried'))}
+                           for g in gens if not g.get('error') for ob in g['obs'] if ob.kind != 'canary'], key=lambda x: -x['time_s'])[:8],
         'vacuity': {'canaries': sum(1 for g in gens if not g.get('error') for ob in g['obs'] if ob.kind == 'canary'), 'problems': vac_problems},
         'timeout_s': timeout,
         'errors': [{'function': short_fn(r['func']), 'error': r['error']} for r in results],
